@@ -1,7 +1,297 @@
+/-
+  Driver ops of work package D2: reference criterion, criteria concealment, criteria mixing (C18) and
+  anchoring (C19).  Mirrors harness/main/c18.go and c19.go.
+-/
 import Rdm.Ops.Codec
+import Rdm.Model.Anchoring
+import Rdm.Spec.C18
+import Rdm.Spec.C19
 namespace Rdm.Ops
 open Rdm
+variable {α : Type} [Num α]
 
-def biasesBOps : List (String × (List SExp → R SExp)) := []
+def epsF : Float := Num.ofConst Facts.choquetEps
+
+/-! ### codecs -/
+
+/-- `(nums strs bools)` -/
+def decProps (e : SExp) : R (Props α) := do
+  match e with
+  | .list [n, s, b] => pure ⟨← decNumMap n, ← s.asKMap SExp.asStr, ← b.asKMap SExp.asBool⟩
+  | _ => throw s!"bad props {e}"
+
+def decOpt {β} (f : SExp → R β) (e : SExp) : R (Option β) := do
+  match e with
+  | .list [.atom "none"] => pure none
+  | .list [.atom "some", v] => pure (some (← f v))
+  | _ => throw s!"bad option {e}"
+
+def decRange (lo hi : SExp) : R (α × α) := do pure (← lo.asNum, ← hi.asNum)
+
+/-- `(id type min max values addition)` -/
+def encConcealReport (r : ConcealReport α) : SExp :=
+  .list [SExp.str r.id, SExp.str r.type, SExp.num r.range.1, SExp.num r.range.2, encNumMap r.values,
+         encAddition r.addition]
+def decConcealReport (e : SExp) : R (ConcealReport α) := do
+  match e with
+  | .list [i, t, lo, hi, v, a] =>
+    pure ⟨← i.asStr, ← t.asStr, ← decRange lo hi, ← decNumMap v, ← decAddition a⟩
+  | _ => throw s!"bad conceal report {e}"
+
+def encComp (c : MixComponent α) : SExp := .list [SExp.str c.id, SExp.str c.type, encNumMap c.values]
+def decComp (e : SExp) : R (MixComponent α) := do
+  match e with
+  | .list [i, t, v] => pure ⟨← i.asStr, ← t.asStr, ← decNumMap v⟩
+  | _ => throw s!"bad component {e}"
+
+/-- `(nil)` | `(mixed c1 c2 new addition)` -/
+def encMixReport : Option (MixReport α) → SExp
+  | none => .list [.atom "nil"]
+  | some r => .list [.atom "mixed", encComp r.c1, encComp r.c2, encComp r.new, encAddition r.addition]
+def decMixReport (e : SExp) : R (Option (MixReport α)) := do
+  match e with
+  | .list [.atom "nil"] => pure none
+  | .list [.atom "mixed", a, b, n, ad] => pure (some ⟨← decComp a, ← decComp b, ← decComp n, ← decAddition ad⟩)
+  | _ => throw s!"bad mix report {e}"
+
+/-- `(fn props)` -/
+def decFunDef (e : SExp) : R (FunDef α) := do
+  match e with
+  | .list [f, p] => pure ⟨← f.asStr, ← decProps p⟩
+  | _ => throw s!"bad function definition {e}"
+
+/-- `(((id (none)|(some k))...) typed loss gain refFn applier)` -/
+def decAnchProps (e : SExp) : R (AnchProps α) := do
+  match e with
+  | .list [alts, typed, loss, gain, rf, ap] =>
+    let alts ← alts.mapList fun a => do
+      match a with
+      | .list [i, k] => pure (← i.asStr, ← decOpt SExp.asNum k)
+      | _ => throw s!"bad anchoring alternative {a}"
+    pure ⟨alts, ← typed.asBool, ← decFunDef loss, ← decFunDef gain, ← rf.asStr, ← decFunDef ap⟩
+  | _ => throw s!"bad anchoring props {e}"
+
+/-- scaling: kmap id ↦ `(scale min max)` -/
+def encScaling (m : KMap (Scale α)) : SExp :=
+  SExp.kmap m fun s => .list [SExp.num s.1, SExp.num s.2.1, SExp.num s.2.2]
+def decScaling (e : SExp) : R (KMap (Scale α)) :=
+  e.asKMap fun s => do
+    match s with
+    | .list [a, lo, hi] => pure (← a.asNum, ← decRange lo hi)
+    | _ => throw s!"bad scale {s}"
+
+/-- differences: `((alt ((refId coefs)...))...)` -/
+def encDiffs (l : List (AltDiffs α)) : SExp :=
+  .list (l.map fun p => .list [encAlt p.1, .list (p.2.map fun r => .list [SExp.str r.1, encNumMap r.2])])
+def decDiffs (e : SExp) : R (List (AltDiffs α)) :=
+  e.mapList fun p => do
+    match p with
+    | .list [a, rs] =>
+      let rs ← rs.mapList fun r => do
+        match r with
+        | .list [i, m] => pure (← i.asStr, ← decNumMap m)
+        | _ => throw s!"bad reference point difference {r}"
+      pure (← decAlt a, rs)
+    | _ => throw s!"bad differences {p}"
+
+def encAddedAnch (a : AddedAnch α) : SExp :=
+  .list [SExp.str a.id, SExp.str a.type, SExp.num a.range.1, SExp.num a.range.2, encAddition a.addition,
+         encNumMap a.values]
+def decAddedAnch (e : SExp) : R (AddedAnch α) := do
+  match e with
+  | .list [i, t, lo, hi, ad, v] => pure ⟨← i.asStr, ← t.asStr, ← decRange lo hi, ← decAddition ad, ← decNumMap v⟩
+  | _ => throw s!"bad added anchoring criterion {e}"
+
+/-- `(inline alts)` | `(newCriterion crit (added...))` -/
+def encApplierResult : ApplierResult α → SExp
+  | .inline l => .list [.atom "inline", encAlts l]
+  | .newCriterion c l => .list [.atom "newCriterion", encCrit c, .list (l.map encAddedAnch)]
+def decApplierResult (e : SExp) : R (ApplierResult α) := do
+  match e with
+  | .list [.atom "inline", l] => pure (.inline (← decAlts l))
+  | .list [.atom "newCriterion", c, l] => pure (.newCriterion (← decCrit c) (← l.mapList decAddedAnch))
+  | _ => throw s!"bad applier result {e}"
+
+/-- `(refPoints scaling diffs applierResult)` -/
+def encAnchReport (r : AnchReport α) : SExp :=
+  .list [encAlts r.refPoints, encScaling r.scaling, encDiffs r.diffs, encApplierResult r.applier]
+def decAnchReport (e : SExp) : R (AnchReport α) := do
+  match e with
+  | .list [rp, sc, df, ap] => pure ⟨← decAlts rp, ← decScaling sc, ← decDiffs df, ← decApplierResult ap⟩
+  | _ => throw s!"bad anchoring report {e}"
+
+def decDrawLists (e : SExp) : R (List (Draws α)) := e.mapList decNums
+
+/-! ### C18 ops -/
+
+/-- `(refcrit (wcrit...) props (draws...))` → `(ok crit)` | `(err)` -/
+def opRefCrit (args : List SExp) : R SExp := do
+  match args with
+  | [r, p, d] =>
+    let ranked : List (WCrit Float) ← r.mapList decWCrit
+    pure (encR (refCriterion (← decProps p) ranked (← decNums d)) encCrit)
+  | _ => throw "refcrit: arity"
+
+/-- `(conceal-apply orig cur props (refDraws) (genDraws))` → `(ok (dmp report))` | `(err)` -/
+def opConcealApply (args : List SExp) : R SExp := do
+  match args with
+  | [o, c, p, rd, gd] =>
+    let orig : DMP Float ← decDMP o
+    let res := conceal epsF orig (← decDMP c) (← decProps p) (← decNums rd) (← decNums gd)
+    pure (encR res fun (d, r) => .list [encDMP d, encConcealReport r])
+  | _ => throw "conceal-apply: arity"
+
+/-- `(mixing-apply orig cur props (refDraws) (genDraws))` → `(ok (dmp report))` | `(err)` -/
+def opMixingApply (args : List SExp) : R SExp := do
+  match args with
+  | [o, c, p, rd, gd] =>
+    let orig : DMP Float ← decDMP o
+    let res := mixing epsF orig (← decDMP c) (← decProps p) (← decNums rd) (← decNums gd)
+    pure (encR res fun (d, r) => .list [encDMP d, encMixReport r])
+  | _ => throw "mixing-apply: arity"
+
+/-- `(check-c18-conceal orig cur props dmp report)` on the implementation's output -/
+def opCheckC18Conceal (args : List SExp) : R SExp := do
+  match args with
+  | [o, c, p, d, r] =>
+    let orig : DMP Rat ← decDMP o
+    pure (.atom (Spec.C18.explainConceal orig (← decDMP c) (← decProps p) (← decDMP d) (← decConcealReport r)))
+  | _ => throw "check-c18-conceal: arity"
+
+/-- `(check-c18-mixing orig cur props dmp report)` on the implementation's output -/
+def opCheckC18Mixing (args : List SExp) : R SExp := do
+  match args with
+  | [o, c, p, d, r] =>
+    let orig : DMP Rat ← decDMP o
+    pure (.atom (Spec.C18.explainMixing orig (← decDMP c) (← decProps p) (← decDMP d) (← decMixReport r)))
+  | _ => throw "check-c18-mixing: arity"
+
+/-- `(check-c18-refcrit (wcrit...) crit)`: the provided criterion is one of the ranked ones -/
+def opCheckC18RefCrit (args : List SExp) : R SExp := do
+  match args with
+  | [r, c] =>
+    let ranked : List (WCrit Rat) ← r.mapList decWCrit
+    pure (.atom (Spec.C18.explainRefCrit ranked (← decCrit c)))
+  | _ => throw "check-c18-refcrit: arity"
+
+/-! ### C19 ops -/
+
+def decAnchAlts (e : SExp) : R (List (Alt α × α)) :=
+  e.mapList fun p => do
+    match p with
+    | .list [a, k] => pure (← decAlt a, ← k.asNum)
+    | _ => throw s!"bad anchoring alternative {p}"
+
+/-- `(anchoring-refpoints fn ((alt coef)...) crits)` → `(ok alts)` | `(err)` -/
+def opAnchRefPoints (args : List SExp) : R SExp := do
+  match args with
+  | [f, a, c] =>
+    let alts : List (Alt Float × Float) ← decAnchAlts a
+    pure (encR (referencePoints (← f.asStr) alts (← decCrits c)) encAlts)
+  | _ => throw "anchoring-refpoints: arity"
+
+/-- `(anchoring-scaling crits alts)` → `(ok scaling)` | `(err)` -/
+def opAnchScaling (args : List SExp) : R SExp := do
+  match args with
+  | [c, a] =>
+    let alts : List (Alt Float) ← decAlts a
+    pure (encR (anchScaling (← decCrits c) alts) encScaling)
+  | _ => throw "anchoring-scaling: arity"
+
+/-- are Go's mapped differences within 1e-12 (relative to the magnitude of the intermediate results
+    of the gain/loss function) of the model's, which uses `Float.exp`? -/
+def diffsClose (model mag go : List (AltDiffs Float)) : Bool :=
+  model.length == go.length &&
+  (model.zip (mag.zip go)).all fun (m, g, o) =>
+    m.1.id == o.1.id && m.2.length == o.2.length &&
+    (m.2.zip (g.2.zip o.2)).all fun (mr, gr, orr) =>
+      mr.1 == orr.1 && mr.2.length == orr.2.length &&
+      mr.2.all fun (c, v) =>
+        match orr.2.get? c, gr.2.get? c with
+        | some w, some s => Float.abs (v - w) ≤ 1e-12 * (Float.abs s + Float.abs v)
+        | _, _ => false
+
+/-- `(anchoring-diffs alts refs crits scaling loss gain goDiffs?)`:
+    without Go's differences → `(ok diffs)` (exact, linear functions);
+    with them → `(ok close)` when they agree within the `exp` tolerance, else the model's differences -/
+def opAnchDiffs (args : List SExp) : R SExp := do
+  match args with
+  | [a, r, c, s, l, g, go] =>
+    let alts : List (Alt Float) ← decAlts a
+    let refs ← decAlts r
+    let crits ← decCrits c
+    let sc ← decScaling s
+    let go ← decOpt decDiffs go
+    let res : R (List (AltDiffs Float)) := do
+      calcDiffs Float.exp alts refs crits sc (← parseAFun (← decFunDef l)) (← parseAFun (← decFunDef g))
+    match go, res with
+    | some go, .ok m =>
+      let mag : R (List (AltDiffs Float)) := do
+        calcDiffsWith (AFun.magnitude Float.exp) alts refs crits sc (← parseAFun (← decFunDef l)) (← parseAFun (← decFunDef g))
+      match mag with
+      | .ok mag => if diffsClose m mag go then pure (.list [.atom "ok", .atom "close"]) else pure (encR res encDiffs)
+      | .error _ => pure (encR res encDiffs)
+    | _, _ => pure (encR res encDiffs)
+  | _ => throw "anchoring-diffs: arity"
+
+/-- `(anchoring-applier dmp diffs scaling (fn props) (refDraws) ((gen draws)...))` → `(ok (dmp result))` | `(err)` -/
+def opAnchApplier (args : List SExp) : R SExp := do
+  match args with
+  | [d, df, s, ap, rd, gs] =>
+    let dmp : DMP Float ← decDMP d
+    let ap ← decFunDef ap
+    let res : R (DMP Float × ApplierResult Float) := do
+      let b ← boundingOfProps ap.params
+      applierApply epsF dmp (← decDiffs df) b (← decScaling s) ap (← decNums rd) (← decDrawLists gs)
+    pure (encR res fun (d, r) => .list [encDMP d, encApplierResult r])
+  | _ => throw "anchoring-applier: arity"
+
+/-- `(anchoring-apply cur props (refDraws) ((gen draws)...) goDiffs?)` → `(ok (dmp report))` | `(err)`;
+    with Go's mapped differences (an `exp` function is involved) the model's own differences must be
+    close to them and the applier continues from Go's -/
+def opAnchApply (args : List SExp) : R SExp := do
+  match args with
+  | [c, p, rd, gs, go] =>
+    let cur : DMP Float ← decDMP c
+    let p ← decAnchProps p
+    let rd ← decNums rd
+    let gs ← decDrawLists gs
+    let go ← decOpt decDiffs go
+    match go with
+    | none => pure (encR (anchoringApply Float.exp epsF cur p rd gs) fun (d, r) => .list [encDMP d, encAnchReport r])
+    | some go =>
+      let chk : R Bool := do
+        let (refs, sc, m, _) ← anchoringFront Float.exp cur p
+        let mag ← calcDiffsWith (AFun.magnitude Float.exp) cur.all refs cur.crit sc (← parseAFun p.loss) (← parseAFun p.gain)
+        pure (diffsClose m mag go)
+      match chk with
+      | .ok false => pure (.list [.atom "diffs-not-close"])
+      | _ => pure (encR (anchoringApply Float.exp epsF cur p rd gs (some go)) fun (d, r) => .list [encDMP d, encAnchReport r])
+  | _ => throw "anchoring-apply: arity"
+
+/-- `(check-c19 cur props dmp report)` on the implementation's output -/
+def opCheckC19 (args : List SExp) : R SExp := do
+  match args with
+  | [c, p, d, r] =>
+    let cur : DMP Rat ← decDMP c
+    pure (.atom (Spec.C19.explain cur (← decAnchProps p) (← decDMP d) (← decAnchReport r)))
+  | _ => throw "check-c19: arity"
+
+/-- `(check-c19-stages cur props dmp report)`: the clauses after the reference point, for stage runs with
+    several (given) reference points -/
+def opCheckC19Stages (args : List SExp) : R SExp := do
+  match args with
+  | [c, p, d, r] =>
+    let cur : DMP Rat ← decDMP c
+    pure (.atom (Spec.C19.explain cur (← decAnchProps p) (← decDMP d) (← decAnchReport r) false))
+  | _ => throw "check-c19-stages: arity"
+
+def biasesBOps : List (String × (List SExp → R SExp)) :=
+  [("refcrit", opRefCrit), ("conceal-apply", opConcealApply), ("mixing-apply", opMixingApply),
+   ("check-c18-conceal", opCheckC18Conceal), ("check-c18-mixing", opCheckC18Mixing),
+   ("check-c18-refcrit", opCheckC18RefCrit),
+   ("anchoring-refpoints", opAnchRefPoints), ("anchoring-scaling", opAnchScaling),
+   ("anchoring-diffs", opAnchDiffs), ("anchoring-applier", opAnchApplier),
+   ("anchoring-apply", opAnchApply), ("check-c19", opCheckC19), ("check-c19-stages", opCheckC19Stages)]
 
 end Rdm.Ops
